@@ -143,7 +143,13 @@ class Srv6SidInformation:
 
     def json(self, compact: bool | None = None) -> str:
         s: str = '{{ "sid": "{}", "flags": 0, "endpoint_behavior": {}'.format(str(self.sid), self.behavior)
-        content: str = ', '.join(subsubtlv.json() for subsubtlv in self.subsubtlvs)
+        # a sub-sub-TLV we know renders a member ("structure": {..}); an unregistered one renders a bare object,
+        # which spliced in here made the whole line unparseable: they go into one array member instead
+        members = [t.json() for t in self.subsubtlvs if not isinstance(t, GenericSrv6ServiceDataSubSubTlv)]
+        unknown = [t.json() for t in self.subsubtlvs if isinstance(t, GenericSrv6ServiceDataSubSubTlv)]
+        if unknown:
+            members.append('"unknown-sub-sub-tlvs": [ {} ]'.format(', '.join(unknown)))
+        content: str = ', '.join(members)
         if content:
             s += ', {}'.format(content)
         s += ' }'
